@@ -164,13 +164,13 @@ DIRECTED = [
     ["lemonde.fr", "www.lemonde.fr"], ["www.lemonde.fr", "lemonde.fr"], ["a.b.c.fr", "d.c.fr", "c.fr"],
     ["Lemonde.FR ", "lemonde.fr"], ["xn--tlrama-bvab.fr", "télérama.fr"], ["télérama.fr"], ["XN--TLRAMA-BVAB.FR"],
     ["a.fr", "b.a.fr", "c.b.a.fr", "fr"], ["b.a.fr", "c.a.fr", "d.c.a.fr", "a.fr"], ["com", "com"],
-    ["localhost.example.com"], ["1.2.3.4.example.com", "example.com"], ["feed.example.com", "cafe.example.com"], ["cafe.be", "abc.de"], ["be"],
+    ["localhost.example.com"], ["1.2.3.4.example.com", "example.com"], ["feed.example.com", "cafe.example.com"], ["cafe.be", "abc.de"], ["be"], ["xn--mnchen-3ya.de", "münchen.de"], ["пример.xn--p1ai"], ["xn--e1afmkfd.рф", "www.пример.рф"],
 ]
 DIRECTED_Q = ["lemonde.fr", "www.lemonde.fr", "xlemonde.fr", "fr", "a.b.c.fr", "c.fr", "x.c.fr", "d.c.fr", "télérama.fr", "xn--tlrama-bvab.fr",
               "www.xn--tlrama-bvab.fr", "a.fr", "b.a.fr", "x.c.b.a.fr", "com", "x.com", "localhost.example.com", "example.com", "1.2.3.4.example.com",
-              "x.localhost.example.com", "feed.example.com", "x.cafe.example.com", "fe.example.com", "cafe.be", "www.cafe.be", "abc.de", "f.abc.de", "dead.beef.cafe.be"]
+              "x.localhost.example.com", "feed.example.com", "x.cafe.example.com", "fe.example.com", "cafe.be", "www.cafe.be", "abc.de", "f.abc.de", "dead.beef.cafe.be", "münchen.de", "xn--mnchen-3ya.de", "www.xn--mnchen-3ya.de", "пример.рф", "xn--e1afmkfd.xn--p1ai", "x.пример.xn--p1ai", "xn--e1afmkfd.рф"]
 
-REAL_LABELS = ["lemonde", "fr", "com", "co", "uk", "www", "blog", "news", "télérama", "xn--tlrama-bvab", "bücher", "xn--bcher-kva", "example", "m", "x1", "a-b", "feed", "cafe"]
+REAL_LABELS = ["lemonde", "fr", "com", "co", "uk", "www", "blog", "news", "télérama", "xn--tlrama-bvab", "bücher", "xn--bcher-kva", "münchen", "xn--mnchen-3ya", "рф", "xn--p1ai", "例え", "xn--r8jz45g", "example", "m", "x1", "a-b", "feed", "cafe"]
 
 
 def spell(rng, h):
